@@ -130,12 +130,19 @@ fn run(plan: &Plan, ctx: &mut Ctx) -> R {
         b.set_compression(false);
         Box::leak(Box::new(b))
     };
-    let sem: &'static SemanticSddBuilder<'static, U64_LARGEST> =
-        Box::leak(Box::new(SemanticSddBuilder::new(ws::build_vtree(n, plan.get("vt3_shape"), plan.get("vt_seed") as u64 ^ 0xAA, plan.get("ord3") as u64))));
+    let sem_compress = plan.get_or("sem_compress", 0) != 0;
+    let sem: &'static SemanticSddBuilder<'static, U64_LARGEST> = {
+        let mut b = SemanticSddBuilder::new(ws::build_vtree(n, plan.get("vt3_shape"), plan.get("vt_seed") as u64 ^ 0xAA, plan.get("ord3") as u64));
+        // the compression switch is part of the builder's public configuration (it must not matter to correctness)
+        b.set_compression(sem_compress);
+        Box::leak(Box::new(b))
+    };
     // fault-free twin of the hash-identified SDD builder (C16: its apply cache must never change a result)
     let sem_twin: Option<&'static SemanticSddBuilder<'static, U64_LARGEST>> = if ctx.wants("C16") {
         let was = rsdd::verif::set_faults_enabled(false);
-        let t = Box::leak(Box::new(SemanticSddBuilder::new(ws::build_vtree(n, plan.get("vt3_shape"), plan.get("vt_seed") as u64 ^ 0xAA, plan.get("ord3") as u64))));
+        let mut tb = SemanticSddBuilder::new(ws::build_vtree(n, plan.get("vt3_shape"), plan.get("vt_seed") as u64 ^ 0xAA, plan.get("ord3") as u64));
+        tb.set_compression(sem_compress);
+        let t = Box::leak(Box::new(tb));
         rsdd::verif::set_faults_enabled(was);
         Some(&*t)
     } else {
@@ -391,7 +398,8 @@ impl World for SemHashWorld {
             cfg.insert(k.into(), c.below(6) as i64);
         }
         cfg.insert("vt_seed".into(), (c.next() >> 2) as i64);
-        cfg.insert("table_cap".into(), *c.pick(&[0i64, 0, 1, 2, 3, 4, 8, 16, 64]));
+        cfg.insert("sem_compress".into(), c.below(2) as i64);
+        cfg.insert("table_cap".into(), *c.pick(&[0i64, 1, 2, 3, 4, 8, 16, 64, 64]));
         cfg.insert("place_off".into(), (p.below(4096) * 16) as i64);
         cfg.insert("place_pad_every".into(), p.below(5) as i64);
         cfg.insert("place_pad_bytes".into(), (p.below(8) * 16) as i64);
